@@ -193,6 +193,15 @@ func doReplay(path string) int {
 			fmt.Fprintln(os.Stderr, "machinery:", err)
 			return 2
 		}
+	case "fault":
+		if rf.Input.Fault == nil {
+			fmt.Fprintln(os.Stderr, "machinery: fault replay without a fault")
+			return 2
+		}
+		if err := evalFault(&rf.Input, false, &faultStats{}, func(v []violation, _ *caseInput) { vs = append(vs, v...) }); err != nil {
+			fmt.Fprintln(os.Stderr, "machinery:", err)
+			return 2
+		}
 	case "lidns":
 		vs = checkLidNS([]mtypes.LeaseID{rf.Input.Lease, *rf.Input.Sibling})
 	default:
@@ -458,6 +467,113 @@ func run(tier string) int {
 	close(chB)
 	wg.Wait()
 
+	// ---- path (b'): update sequences across a provider restart that switches network policies ----
+	// and ---- path (c): environment faults (see fault.go) ----
+	find := func(np bool) int {
+		for i, s := range settings {
+			if s.NetworkPoliciesEnabled == np && s.CPUCommitLevel == 1.5 && s.MemoryCommitLevel == 1.5 && s.StorageCommitLevel == 1.5 &&
+				s.DeploymentRuntimeClass == "" && s.DeploymentIngressDomain == "example.com" {
+				return i
+			}
+		}
+		return -1
+	}
+	sOn, sOff := find(true), find(false)
+	if sOn < 0 || sOff < 0 {
+		fmt.Fprintln(os.Stderr, "machinery: settings grammar lacks the (commit 1.5, static hosts) pair used by the toggle and fault paths")
+		return 2
+	}
+	toggles := [][]int{{sOff, sOn}, {sOn, sOff}, {sOn, sOff, sOn}, {sOff, sOn, sOff}}
+	leaseT := leaseB[:2]
+	leaseF := []int{leaseB[0]}
+	if tier == "thorough" {
+		leaseF = append(leaseF, leaseB[len(leaseB)-1]) // an extreme id
+	}
+	faultSeqs := [][]int{{sOn, sOn}, {sOff, sOff}}
+	if tier == "thorough" {
+		faultSeqs = append(faultSeqs, []int{sOff, sOn}, []int{sOn, sOff})
+	}
+	type itemC struct {
+		fault   bool
+		l, g, v int
+	}
+	chC := make(chan itemC, 1024)
+	var evalsT, ntT, plannedT, plannedF, doneF int64
+	plannedT = int64(len(leaseT) * G * len(toggles))
+	plannedF = int64(len(leaseF) * G * len(faultSeqs))
+	fstats := &faultStats{}
+	var fmu sync.Mutex
+	for w := 0; w < workers; w++ {
+		wg.Add(1)
+		go func() {
+			defer wg.Done()
+			local := &faultStats{}
+			defer func() { fmu.Lock(); fstats.merge(local); fmu.Unlock() }()
+			for it := range chC {
+				if atomic.LoadInt32(&stopped) != 0 {
+					continue
+				}
+				if time.Now().After(deadline) {
+					atomic.StoreInt32(&stopped, 1)
+					continue
+				}
+				g2 := groups[(it.g+1)%G]
+				g3 := groups[(it.g+strides[1])%G]
+				if !it.fault {
+					tg := toggles[it.v]
+					sib := leases[(it.l+1)%L]
+					in := &caseInput{Path: "deploy", Lease: leases[it.l], Sibling: &sib, Foreign: foreignFor(leases, it.l),
+						Settings: settings[tg[0]], Group: groups[it.g], Group2: &g2, Settings2: &settings[tg[1]]}
+					if len(tg) > 2 {
+						in.Group3, in.Settings3 = &g3, &settings[tg[2]]
+					}
+					vs, nt, err := evalDeploy(in)
+					if err != nil && len(vs) == 0 {
+						if atomic.AddInt64(&machErrs, 1) == 1 {
+							raw, _ := json.Marshal(in)
+							firstMachErr.Store(err.Error() + " on " + string(raw))
+						}
+						continue
+					}
+					atomic.AddInt64(&evalsT, 1)
+					if nt {
+						atomic.AddInt64(&ntT, 1)
+					}
+					col.add(vs, in)
+					continue
+				}
+				fs := faultSeqs[it.v]
+				in := &caseInput{Path: "fault", Lease: leases[it.l], Foreign: foreignFor(leases, it.l),
+					Settings: settings[fs[0]], Group: groups[it.g], Group2: &g2, Settings2: &settings[fs[1]]}
+				err := evalFault(in, tier == "thorough", local, func(vs []violation, c *caseInput) { col.add(vs, c) })
+				if err != nil {
+					if atomic.AddInt64(&machErrs, 1) == 1 {
+						raw, _ := json.Marshal(in)
+						firstMachErr.Store(err.Error() + " on " + string(raw))
+					}
+					continue
+				}
+				atomic.AddInt64(&doneF, 1)
+			}
+		}()
+	}
+	for _, l := range leaseT {
+		for g := 0; g < G; g++ {
+			for v := range toggles {
+				chC <- itemC{false, l, g, v}
+			}
+		}
+	}
+	for _, l := range leaseF {
+		for g := 0; g < G; g++ {
+			for v := range faultSeqs {
+				chC <- itemC{true, l, g, v}
+			}
+		}
+	}
+	close(chC)
+	wg.Wait()
+
 	if machErrs > 0 {
 		fmt.Fprintf(os.Stderr, "machinery: %d Deploy/Teardown calls failed on the fake API server; first: %v\n", machErrs, firstMachErr.Load())
 		return 2
@@ -467,9 +583,9 @@ func run(tier string) int {
 		return 2
 	}
 
-	exhaustive := atomic.LoadInt32(&stopped) == 0 && evalsA == plannedA && evalsB == plannedB
-	evals := evalsA + evalsB + evalsN
-	distinct := ntA.count() + ntB.count()
+	exhaustive := atomic.LoadInt32(&stopped) == 0 && evalsA == plannedA && evalsB == plannedB && evalsT == plannedT && doneF == plannedF
+	evals := evalsA + evalsB + evalsN + evalsT + fstats.runs
+	distinct := ntA.count() + ntB.count() + ntT + fstats.objectsAfter
 
 	// ---- samples (VERIF_SEED only rotates which ones are printed) ----
 	var samples []interface{}
@@ -534,28 +650,40 @@ func run(tier string) int {
 			DistinctNontrivial: distinct,
 			Rule: "Inputs are enumerated by nested loops over finite lists (no randomness): " + describeGrammar(tier, L, S, G) +
 				". Path builders = product leases x groups x settings" + map[string]string{"quick": " (two-service groups only for the 8 leases with dseq 257 and gseq=oseq; the 10 extreme ids x every group x the settings with network policies on and a uniform commit level)", "thorough": " restricted to the quick tier's settings list (extreme ids included), plus (4 leases: owners x providers at dseq 257,gseq 1,oseq 1) x one-service groups x ALL settings"}[tier] +
-				", each evaluated through every builder's create() and update(); path deploy = leases' x uniform-commit settings' x groups x 2 successor groups, each run through client.Deploy, Deploy(changed manifest), Deploy(second lease), TeardownLease on client-go/akash fake clientsets; path lidns = lidNS over a 640-id grid (2 owners x 2 providers x dseq{1,11,12,111,256,257,65536,10^17,2^63,2^64-1} x gseq,oseq{1,2,12,2^32-1}): every name a DNS-1123 label, no two ids share one. " +
+				", each evaluated through every builder's create() and update(); path deploy = leases' x uniform-commit settings' x groups x 2 successor groups, each run through client.Deploy, Deploy(changed manifest), Deploy(second lease), TeardownLease on client-go/akash fake clientsets; path toggle = 2 leases x groups x network-policy switch sequences {off->on, on->off, on->off->on, off->on->off} across provider restarts, each step a Deploy of the next manifest; path fault = (leases x groups x {policies on, policies off}" + map[string]string{"quick": "", "thorough": ", off->on, on->off; 2 leases"}[tier] + ") x update (g -> g') x EVERY API call position of Deploy#1 and of Deploy#2 x error kinds {internal; get: +forbidden; create: +already-exists; update: +conflict}" + map[string]string{"quick": "", "thorough": " and every ordered pair of positions (internal errors)"}[tier] + ": the call answers the error without effect, the oracle is evaluated on the API server content when Deploy returns (whatever it returns), then an undisturbed Deploy must heal the state completely; path lidns = lidNS over a 640-id grid (2 owners x 2 providers x dseq{1,11,12,111,256,257,65536,10^17,2^63,2^64-1} x gseq,oseq{1,2,12,2^32-1}): every name a DNS-1123 label, no two ids share one. " +
 				"A case is counted non-trivial when the real code produced, besides Namespace and Deployments, at least one Service, Ingress or NetworkPolicy, or a container whose request is below its limit; distinctness is measured with a bitset over the input index space (list elements are verified pairwise distinct by hash at start-up).",
 			Samples:    samples,
 			Exhaustive: exhaustive,
 			Extra: map[string]interface{}{
-				"evaluations_builders":         evalsA,
-				"evaluations_deploy":           evalsB,
-				"evaluations_lidns_ids":        evalsN,
-				"planned_builders":             plannedA,
-				"planned_deploy":               plannedB,
-				"nontrivial_builders":          ntA.count(),
-				"nontrivial_deploy":            ntB.count(),
-				"grammar":                      map[string]int{"leases": L, "settings": S, "groups": G, "deploy_leases": len(leaseB), "deploy_settings": len(setB), "deploy_successors": len(strides)},
-				"violation_signatures":         sigSummary,
-				"wall_builders_s":              tA.Seconds(),
-				"workers":                      workers,
-				"stopped_by_internal_deadline": atomic.LoadInt32(&stopped) != 0,
+				"evaluations_builders":                           evalsA,
+				"evaluations_deploy":                             evalsB,
+				"evaluations_lidns_ids":                          evalsN,
+				"planned_builders":                               plannedA,
+				"planned_deploy":                                 plannedB,
+				"nontrivial_builders":                            ntA.count(),
+				"nontrivial_deploy":                              ntB.count(),
+				"grammar":                                        map[string]int{"leases": L, "settings": S, "groups": G, "deploy_leases": len(leaseB), "deploy_settings": len(setB), "deploy_successors": len(strides)},
+				"evaluations_toggle_sequences":                   evalsT,
+				"planned_toggle_sequences":                       plannedT,
+				"fault_samples":                                  fstats.samples,
+				"fault_planned_samples":                          plannedF,
+				"fault_call_positions":                           fstats.positions,
+				"fault_injected_runs":                            fstats.runs,
+				"fault_injected_pair_runs":                       fstats.pairRuns,
+				"fault_runs_leaving_objects":                     fstats.objectsAfter,
+				"fault_deploy_returned_nil_after_injected_error": fstats.nilAfterError,
+				"fault_distinct_outcome_classes":                 len(fstats.outcomes),
+				"fault_outcome_classes":                          fstats.outcomes,
+				"violation_signatures":                           sigSummary,
+				"wall_builders_s":                                tA.Seconds(),
+				"workers":                                        workers,
+				"stopped_by_internal_deadline":                   atomic.LoadInt32(&stopped) != 0,
 			},
 		},
 		Assumptions: []string{
 			"Kubernetes itself enforces the generated objects (security context, limits, NetworkPolicy); the NetworkPolicy verdict comes from a direct model of the documented semantics (netpol.go)",
 			"client-go's fake object tracker stands in for the API server; DeleteCollection is added to it by the harness (label-selected delete)",
+			"environment faults: one (thorough: two) failing API call per Deploy, answered without side effect (a call that takes effect and still reports an error is not modelled); on a state left by a disturbed Deploy completeness clauses are not demanded and objects may belong to the asked-for or the previous manifest",
 			"lidNS(lease) as computed by the real code names the lease namespace; lidNS itself is judged by injectivity and DNS-1123 validity over the id set",
 		},
 		WallS:      time.Since(start).Seconds(),
@@ -567,6 +695,8 @@ func run(tier string) int {
 		fmt.Fprintln(os.Stderr, "machinery: evidence:", err)
 		return 2
 	}
+	fmt.Printf("C11 %s: toggle sequences %d/%d; fault samples %d/%d, call positions %d, injected runs %d (pairs %d), Deploy returned nil after an injected error %d, outcome classes %d\n",
+		tier, evalsT, plannedT, doneF, plannedF, fstats.positions, fstats.runs, fstats.pairRuns, fstats.nilAfterError, len(fstats.outcomes))
 	fmt.Printf("C11 %s: evaluations=%d (builders %d/%d, deploy %d/%d, lidns %d) distinct_nontrivial=%d exhaustive=%v signatures=%d wall=%.1fs\n",
 		tier, evals, evalsA, plannedA, evalsB, plannedB, evalsN, distinct, exhaustive, len(sigs), time.Since(start).Seconds())
 	return exit
